@@ -177,7 +177,7 @@ def forfold(its, s):
 
 @W.spec([SEQ(VAL), VAL], SEQ(VAL))
 def whileloop(s1, n0):
-    """while loop, entered with the condition code already run (s1 ends with the condition value):
+    """while loop, s1 = the stack after the condition code has run (it ends with the condition value):
     while it is truthy run the body with n bound to it, then the condition code again"""
     return whileloop(H7001(H7002(s1[:-1], s1[-1]), n0), n0) if truthy(s1[-1]) else s1[:-1]
 
@@ -220,9 +220,10 @@ def structure_semantics(world):
             loops={0: dict(inv=[f"forfold({ITS}, S0[:len(S0) - 1]) == forfold({ITS}[_k:], stack)", "ctx.context_values == cv0"],
                            hints=[f"unfold(forfold({ITS}[_k:], stack))"], asserts_end=[f"{ITS}[_k - 1:][1:] == {ITS}[_k:]", f"{ITS}[_k - 1:][0] == {ITS}[_k - 1]"],
                            hints_exit=[f"unfold(forfold({ITS}[_k:], stack))"])} if name == "for" else
-                  ({0: dict(inv=["whileloop(H7001(S0, cv0[-1]), cv0[-1]) == whileloop(stack + [condition], cv0[-1])", "ctx.context_values == cv0", "len(ctx.inputs) >= 1"],
-                            hints=["unfold(whileloop(stack + [condition], cv0[-1]))"],
-                            asserts_end=[], hints_exit=["unfold(whileloop(stack + [condition], cv0[-1]))"])} if name == "while" else {}),
+                  # the loop head is the point before the condition code runs (template: while True: <condition>; if not ...: break; push n; <body>; pop n)
+                  ({0: dict(inv=["whileloop(H7001(S0, cv0[-1]), cv0[-1]) == whileloop(H7001(stack, cv0[-1]), cv0[-1])", "ctx.context_values == cv0", "len(ctx.inputs) >= 1"],
+                            hints=["unfold(whileloop(H7001(stack, cv0[-1]), cv0[-1]))"],
+                            asserts_end=[])} if name == "while" else {}),
             lets={"S0": "stack", "cv0": "ctx.context_values"},
             requires=req + ["len(ctx.inputs) >= 1", "len(ctx.context_values) >= 1", "len(ctx.stacks) >= 1", "not ctx.reverse_flag"],
             ensures=[c for _, c in clauses], ensures_names=[n for n, _ in clauses],
